@@ -42,7 +42,7 @@ class _Cont(Exception):
 
 class Obligation:
     __slots__ = ("name", "kind", "pc", "goal", "text", "line", "status", "detail", "time", "backend", "model",
-                 "zmodel", "ghost", "decisions", "regions", "prefer_bv")
+                 "zmodel", "ghost", "decisions", "regions", "prefer_bv", "logic")
 
     def __init__(self, name, kind, pc, goal, text="", line=0):
         self.name = name
@@ -59,6 +59,7 @@ class Obligation:
         self.zmodel = None
         self.regions = {}
         self.prefer_bv = False
+        self.logic = None          # opt-in (contract tag "logic=<SMT-LIB logic>"): first attempt with z3.SolverFor
         self.ghost = None
         self.decisions = None
 
@@ -181,7 +182,7 @@ class Engine:
             raise Infeasible()
         if self.spec and b.get_id() in self.assumed:
             return      # already a fact of this path (tested first: printing a large term below is slow)
-        if self.spec and "!b" in str(b):
+        if self.spec and _may_print_bang_b(b) and "!b" in str(b):
             return      # fact about a quantifier-bound variable: not a fact about the path
         key = b.get_id()
         if key in self.assumed:
@@ -203,6 +204,7 @@ class Engine:
         ob.ghost = dict(self.ghost)
         ob.regions = getattr(self, "finding_terms", None) or {}
         ob.prefer_bv = bool(self.bvw)
+        ob.logic = self.smt_logic
         ob.decisions = list(self.dec_labels)
         self.obligs.append(ob)
         if assume_after:
@@ -821,6 +823,7 @@ class Engine:
         raise Unsupported("bit operation without a bit-operation theory selected (line %d)" % self.cur_line)
 
     bvw = None
+    smt_logic = None
 
     def tobv(self, v):
         """non-negative Python int as a bit-vector of the contract's width; the value must fit (obligation)"""
@@ -1071,6 +1074,36 @@ class Engine:
             finally:
                 self.frames.pop()
         raise Unsupported("global %r" % (ent,))
+
+
+def _may_print_bang_b(t):
+    """pure speed-up of the test `"!b" in str(t)` (the Python pretty printer is exponential on shared ite terms):
+    False only when no symbol of the term (function / constant names, bound-variable names and their sort names)
+    contains "!b", in which case the printed text cannot contain it either; anything unexpected answers True, and
+    the caller then prints as before"""
+    try:
+        seen = set()
+        stack = [t]
+        while stack:
+            x = stack.pop()
+            i = x.get_id()
+            if i in seen:
+                continue
+            seen.add(i)
+            if z3.is_quantifier(x):
+                for j in range(x.num_vars()):
+                    if "!b" in x.var_name(j) or "!b" in str(x.var_sort(j)):
+                        return True
+                stack.append(x.body())
+            elif z3.is_app(x):
+                if "!b" in x.decl().name():
+                    return True
+                stack.extend(x.children())
+            elif not z3.is_var(x):
+                return True
+        return False
+    except Exception:
+        return True
 
 
 def _is_numeral(t):
